@@ -216,12 +216,15 @@ int harness_main(void) {
             unsigned char *s = area_place(&as, row->size, 0);
             memcpy(s, img, row->size);
             char *j = (char *)aj.lo;
-            memset(j, 0, 4096);
+            /* the buffer is NOT zeroed: a re-used buffer holds older, longer text */
+            memset(j, '#', 65536);
+            j[65535] = 0;
             uint32_t len = 0;
             if (row->json) {
                 int rc = row->json(s, j);
                 len = (uint32_t)strlen(j);
-                if (rc != (int)len) len |= 0x80000000u;
+                if (rc != (int)len) len |= 0x80000000u; /* returned length != length of the C string */
+                if (len > 60000u) len = 60000u | 0x80000000u;
             } else {
                 len = 0xFFFFFFFFu;
             }
